@@ -24,7 +24,7 @@ CHECKS = {
   "The same generated program (all option combinations, extraction, link_to, removals, raw index calls, damage to content and bucket files between steps) runs in three fresh caches through the _sync API, this build's async runtime and the other runtime (the other build's driver process, step-synchronous); per step the normalised results must be equal and admitted by the model, the final trees must decode to the same records and content; a mixed execution assigns each step a generated flavour and is judged by the model, then read through all three. Two further case kinds without a model: planted odd index records (read side must agree), and programs run in three single-threaded driver processes with a relative cache path and a changing working directory.",
   "The remote flavour is the other build's driver binary; timestamps assigned by the library are blanked after the model judged them."),
  "C13": ("fault_enumeration", "system-call fault injection at every call of each operation under a ptrace supervisor; truthfulness + model sweep + fault-free re-run oracle",
-  "17 victim operations x 2 flavours x 2 builds: a fault-free traced run lists the filesystem system calls of the operation, then every call in turn is made to fail with EIO and a class-specific errno (all applicable errnos and fault pairs in the thorough tier), plus short-write-then-ENOSPC; the call must return, successes must be truthful per the model, 'not found' for a present key is a violation, afterwards every other key/address equals the model, the content tree is valid, and the same call re-run without faults behaves normally. The traced process carries on after the faulty call with further writes, a removal and lookups (state a failed call leaves inside the process leaks into those); victims include values another key already holds, writes short of the declared size, a key whose bucket exceeds 1 MiB, the temp area on another filesystem, and a really full tmpfs mounted on the cache (private mount namespace).",
+  "29 victim operations x 2 flavours x 2 builds: a fault-free traced run lists the filesystem system calls of the operation, then every call in turn is made to fail with EIO and a class-specific errno (all applicable errnos and fault pairs in the thorough tier), plus short-write-then-ENOSPC; the call must return, successes must be truthful per the model, 'not found' for a present key is a violation, afterwards every other key/address equals the model, the content tree is valid, and the same call re-run without faults behaves normally. The traced process carries on after the faulty call with further writes, a removal and lookups (state a failed call leaves inside the process leaks into those); victims include values another key already holds, writes short of the declared size, a key whose bucket exceeds 1 MiB, the temp area on another filesystem, and a really full tmpfs mounted on the cache (private mount namespace).",
   "Only the stated fault classes are injected; leftovers in the temp area and partial index lines are legal; destination of a failed extraction is not judged."),
  "C14": ("exploration", "model-based stateful PBT with abandonment points incl. mid-flight drop; temp-area drain oracle",
   "Programs interleaving successful writes, rejected commits and writers abandoned after creation / after j chunks / mid-flight (future polled once then dropped) / after flush; the model must be unchanged by them after every step and the temp area must drain (tokio: runtime dropped = pool joined; async-std: polled, two snapshots).",
@@ -69,6 +69,22 @@ CHECKS = {
   "Histories re-writing equal data through different keys/entry points/flavours and under all five algorithms; addresses compared with the model digest and with coreutils; content file count equals distinct (algorithm, data); damaging one algorithm's copy leaves the others readable.",
   "coreutils as the independent digest implementation (none exists for XXH3 here)."),
 }
+# what waves 8 and 9 of the seeded changes added to each check (appended to the text above)
+GROWN = {
+ "C01": "Victim shapes added later: the same bytes also stored intact under a weaker algorithm with both hashes in the index entry (damage on the file the strongest hash names); a victim key whose previous value is still in the cache; streams consumed by one read_to_end into a non-empty vector.",
+ "C02": "Also: single chunks of 32 MiB+ (128 MiB+ thorough), values mined offline whose digest starts with three zero bytes, read-back streams consumed by small reads / one read_to_end into a non-empty vector / one read_exact.",
+ "C05": "Also: one key grown to thousands of small records observed around round record counts; a sixth of all histories mirrored with other values into a second cache of the same process; streaming writers whose own key is removed (fully / by a record) between their last chunk and their commit.",
+ "C07": "Also: processes that run two or three operations in a row, real-time order demanded on top of serialisability in scheduled runs, schedules that back-date the whole cache at the preemption, and the operations as futures joined in one task (async flavours).",
+ "C09": "Also: a write / look / clear-or-remove-fully / rewrite-with-a-record-of-the-same-length / look family in a cache on the disk filesystem (freed inode numbers are reused at once) with no observation between the steps.",
+ "C13": "Also: the bystander key's bucket and the bystander's content file share the victim's index / content sub-directory; extraction victims onto an existing file of exactly the entry's length and onto the entry's own hard link, with EACCES among the injected errors.",
+ "C14": "Also: async commits cancelled in flight (future polled 1-4 times and dropped; run in a process of its own so that the judged state is final: the key shows its old or its new entry, content that was valid before stays valid); the index area (directories included) and the raw listing are unchanged by every abandoned writer, rejected commit and write by address.",
+ "C15": "Modes and owners are part of every snapshot; every other link target is a read-only file that must stay so.",
+ "C18": "Also: destinations that are an existing file of exactly the entry's length, or (linked entries) another hard-link name of the user's file; missing keys whose text is the address of stored content.",
+ "C19": "Also: read-only targets (mode and owner are part of 'never modified'); the entry removed through the cache in every way there is (the user's file stays); for relative targets through the builder a change of the working directory between opening the linker and its commit.",
+}
+for _k, _t in GROWN.items():
+    _l, _te, _tx, _n = CHECKS[_k]
+    CHECKS[_k] = (_l, _te, _tx + " " + _t, _n)
 REF = {k: f"5/{k}" for k in CHECKS}
 
 checks = []
